@@ -449,6 +449,7 @@ type Options struct {
 	ReadOnlyOps  bool
 	Unguarded    bool // allow unguarded recursion (costly: text/template depth limit)
 	NoRedefine   bool // definition ops only introduce fresh names (x1, x2)
+	AttrHelpers  bool // helpers may be written for attribute contexts (derived copies), each used in one context class only
 }
 
 type genState struct {
@@ -490,7 +491,7 @@ func Gen(t *rapid.T, o Options) *History {
 	for i := 0; i < nh; i++ {
 		name := fmt.Sprintf("h%d", i)
 		ctx := "text"
-		if o.MixedHelpers && g.n(0, 1, "hctx") == 0 {
+		if (o.MixedHelpers || o.AttrHelpers) && g.n(0, 1, "hctx") == 0 {
 			ctx = "attr"
 		}
 		body := g.pick("hbody", helperText)
@@ -699,4 +700,53 @@ func CategoryHistory(cat string, bi int, kind string, csp bool) History {
 	}
 	h.Ops = append(h.Ops, call("m0"), call("g"), call("m0c"), call("m0"), Op{Kind: "lookup", Target: "m0"}, call("m0c"), call("g"))
 	return h
+}
+
+// NewRunner creates a runner holding a new original set for h.
+func NewRunner(h *History) *Runner {
+	r := &Runner{}
+	r.sets = []*template.Template{r.NewSet(h)}
+	return r
+}
+
+// StepNoWatch performs one op with recover but without the watchdog goroutine.
+func (r *Runner) StepNoWatch(op Op) Result { return r.step(op) }
+
+// DefinedByOps lists the template names (re)defined by definition ops ("{{define "x"}}" occurrences, New targets).
+func DefinedByOps(defs []Op, root string) []string {
+	seen := map[string]bool{}
+	var out []string
+	add := func(n string) {
+		if n != "" && !seen[n] {
+			seen[n] = true
+			out = append(out, n)
+		}
+	}
+	for _, d := range defs {
+		if d.Kind == "new" {
+			add(d.Target)
+			continue
+		}
+		rest := d.Text
+		for {
+			k := strings.Index(rest, `{{define "`)
+			if k < 0 {
+				break
+			}
+			rest = rest[k+len(`{{define "`):]
+			e := strings.IndexByte(rest, '"')
+			if e < 0 {
+				break
+			}
+			add(rest[:e])
+		}
+	}
+	sort.Strings(out)
+	return out
+}
+
+// DrawData draws a DataSpec.
+func DrawData(t *rapid.T) *DataSpec {
+	g := &genState{t: t}
+	return g.data()
 }
